@@ -137,7 +137,7 @@ def renderFTail : List (String × Json) → List Char
 end
 
 /-- the bytes written: UTF-8 of the rendered characters (valid UTF-8 by construction) -/
-def renderBytes (j : Json) : List UInt8 := (String.ofList (render j)).toUTF8.toList
+def renderBytes (j : Json) : ByteArray := (String.ofList (render j)).toUTF8
 
 /-! ## 3. parser (RFC 8259; strict: no leading zeros, no raw controls in strings, no lone
     surrogates, nothing but white space after the value) -/
@@ -156,44 +156,81 @@ def hex4 (a b c d : Char) : Option Nat :=
     some (((hexValAny a * 16 + hexValAny b) * 16 + hexValAny c) * 16 + hexValAny d)
   else none
 
-/-- after the opening quote: characters up to the closing quote, unescaped; `acc` reversed -/
-def parseStrBody : List Char → List Char → Option (String × List Char)
-  | [], _ => none
-  | c :: r, acc =>
-    if c = '"' then some (String.ofList acc.reverse, r)
-    else if c = '\\' then
-      match r with
-      | [] => none
-      | e :: r2 =>
-        if e = 'u' then
-          match r2 with
-          | a :: b :: c' :: d :: r3 =>
-            match hex4 a b c' d with
+/-- after `\u`: four hex digits, a high surrogate must be followed by `\uDC00..DFFF` -/
+def parseU (r2 : List Char) : Option (Char × List Char) :=
+  match r2 with
+  | a :: b :: c :: d :: r3 =>
+    match hex4 a b c d with
+    | none => none
+    | some h =>
+      if 0xD800 ≤ h ∧ h < 0xDC00 then
+        match r3 with
+        | bs :: u :: a2 :: b2 :: c2 :: d2 :: r4 =>
+          if bs = '\\' ∧ u = 'u' then
+            match hex4 a2 b2 c2 d2 with
             | none => none
-            | some h =>
-              if 0xD800 ≤ h ∧ h < 0xDC00 then
-                match r3 with
-                | bs :: u :: a2 :: b2 :: c2 :: d2 :: r4 =>
-                  if bs = '\\' ∧ u = 'u' then
-                    match hex4 a2 b2 c2 d2 with
-                    | none => none
-                    | some l =>
-                      if 0xDC00 ≤ l ∧ l < 0xE000 then
-                        parseStrBody r4 (Char.ofNat (0x10000 + (h - 0xD800) * 0x400 + (l - 0xDC00)) :: acc)
-                      else none
-                  else none
-                | _ => none
-              else if 0xDC00 ≤ h ∧ h < 0xE000 then none
-              else parseStrBody r3 (Char.ofNat h :: acc)
-          | _ => none
-        else
-          match unescSimple e with
-          | some ch => parseStrBody r2 (ch :: acc)
-          | none => none
-    else if c.toNat < 32 then none
-    else parseStrBody r (c :: acc)
+            | some l =>
+              if 0xDC00 ≤ l ∧ l < 0xE000 then
+                some (Char.ofNat (0x10000 + (h - 0xD800) * 0x400 + (l - 0xDC00)), r4)
+              else none
+          else none
+        | _ => none
+      else if 0xDC00 ≤ h ∧ h < 0xE000 then none
+      else some (Char.ofNat h, r3)
+  | _ => none
+
+/-- after a backslash -/
+def parseEscape (r : List Char) : Option (Char × List Char) :=
+  match r with
+  | [] => none
+  | e :: r2 =>
+    if e = 'u' then parseU r2
+    else
+      match unescSimple e with
+      | some ch => some (ch, r2)
+      | none => none
+
+/-- after the opening quote: characters up to the closing quote, unescaped; `acc` reversed.
+    One unit of fuel per character read (`parseStr` supplies the input length). -/
+def parseStrBody : Nat → List Char → List Char → Option (String × List Char)
+  | 0, _, _ => none
+  | fuel + 1, cs, acc =>
+    match cs with
+    | [] => none
+    | c :: r =>
+      if c = '"' then some (String.ofList acc.reverse, r)
+      else if c = '\\' then
+        match parseEscape r with
+        | some (ch, r') => parseStrBody fuel r' (ch :: acc)
+        | none => none
+      else if c.toNat < 32 then none
+      else parseStrBody fuel r (c :: acc)
+
+def parseStr (r : List Char) : Option (String × List Char) := parseStrBody r.length r []
 
 def toFin10 (c : Char) : Fin 10 := ⟨(c.toNat - 48) % 10, Nat.mod_lt _ (by decide)⟩
+
+/-- optional fraction: `.` and at least one digit -/
+def parseFrac (r1 : List Char) : Option (List Char × List Char) :=
+  match r1 with
+  | [] => some ([], [])
+  | c :: r =>
+    if c = '.' then
+      let fd := r.takeWhile isDigit
+      if fd = [] then none else some (fd, r.dropWhile isDigit)
+    else some ([], c :: r)
+
+/-- optional exponent: `e`/`E`, optional sign, at least one digit -/
+def parseExp (r2 : List Char) : Option (Option (Bool × Nat) × List Char) :=
+  match r2 with
+  | [] => some (none, [])
+  | e :: r =>
+    if e = 'e' ∨ e = 'E' then
+      let eneg := r.head? = some '-'
+      let r' := if eneg ∨ r.head? = some '+' then r.drop 1 else r
+      let ed := r'.takeWhile isDigit
+      if ed = [] then none else some (some (eneg, decValue ed), r'.dropWhile isDigit)
+    else some (none, e :: r)
 
 /-- `cs` starts at the first character of the number (`-` or a digit) -/
 def parseNum (cs : List Char) : Option (JNum × List Char) :=
@@ -204,27 +241,10 @@ def parseNum (cs : List Char) : Option (JNum × List Char) :=
   if ip = [] then none
   else if ip.head? = some '0' ∧ ip.length > 1 then none
   else
-    -- fraction
-    let fr : Option (List Char × List Char) :=
-      match r1 with
-      | '.' :: r =>
-        let fd := r.takeWhile isDigit
-        if fd = [] then none else some (fd, r.dropWhile isDigit)
-      | _ => some ([], r1)
-    match fr with
+    match parseFrac r1 with
     | none => none
     | some (fd, r2) =>
-      let ex : Option (Option (Bool × Nat) × List Char) :=
-        match r2 with
-        | e :: r =>
-          if e = 'e' ∨ e = 'E' then
-            let eneg := r.head? = some '-'
-            let r' := if eneg ∨ r.head? = some '+' then r.drop 1 else r
-            let ed := r'.takeWhile isDigit
-            if ed = [] then none else some (some (eneg, decValue ed), r'.dropWhile isDigit)
-          else some (none, r2)
-        | [] => some (none, r2)
-      match ex with
+      match parseExp r2 with
       | none => none
       | some (e, r3) => some (⟨neg, decValue ip, fd.map toFin10, e⟩, r3)
 
@@ -237,7 +257,7 @@ def parseValue : Nat → List Char → Option (Json × List Char)
     | [] => none
     | c :: r =>
       if c = '"' then
-        match parseStrBody r [] with
+        match parseStr r with
         | some (s, r') => some (.str s, r')
         | none => none
       else if c = '[' then
@@ -286,7 +306,7 @@ def parseMembers : Nat → List Char → List (String × Json) → Option (Json 
     | [] => none
     | q :: r0 =>
       if q = '"' then
-        match parseStrBody r0 [] with
+        match parseStr r0 with
         | none => none
         | some (k, r1) =>
           match skipWs r1 with
@@ -313,8 +333,8 @@ def parse (cs : List Char) : Option Json :=
   | none => none
 
 /-- bytes → value: UTF-8 validation, then `parse` -/
-def parseBytes (bs : List UInt8) : Option Json :=
-  match String.fromUTF8? bs.toByteArray with
+def parseBytes (bs : ByteArray) : Option Json :=
+  match String.fromUTF8? bs with
   | none => none
   | some s => parse s.toList
 
@@ -1100,7 +1120,7 @@ def json : Sx → Option Json
   | .atom a =>
     if a.startsWith "j" then
       match unhex (a.drop 1).toString with
-      | some bs => parseBytes bs
+      | some bs => parseBytes bs.toByteArray
       | none => none
     else none
   | _ => none
@@ -1262,7 +1282,7 @@ def state : List Sx → Option StateModel
 end Dec
 
 def ckAnswer (compact : List UInt8) : String :=
-  match parseBytes compact with
+  match parseBytes compact.toByteArray with
   | none => "parsed:0 conforms:0"
   | some j =>
     match conformsAt j with
@@ -1291,20 +1311,20 @@ def handle (engine : String) (args : List String) : String :=
       | some s =>
         let m := match printJson s with
           | .panic _ => "M:PANIC"
-          | .ok j => "M:" ++ Proto.hex (renderBytes j)
+          | .ok j => "M:" ++ Proto.hex (renderBytes j).toList
         match ck with
         | none => m
         | some (c, p) =>
           match Proto.unhex c, Proto.unhex p with
           | some cb, some pb =>
-            match parseBytes cb with
+            match parseBytes cb.toByteArray with
             | none => m ++ " C:00 U: P:0"
             | some j =>
               let c := match conformsAt j with
                 | none => "11"
                 | some path => "10@" ++ path
               let u := ",".intercalate (undocumented j)
-              let pp := match parseBytes pb with
+              let pp := match parseBytes pb.toByteArray with
                 | some j' => if Json.beq j j' then "1" else "0"
                 | none => "0"
               m ++ " C:" ++ c ++ " U:" ++ u ++ " P:" ++ pp
